@@ -43,6 +43,8 @@ func (g *G) Doc(max int) *vdoc.Doc {
 			return g.wideDoc()
 		case 1:
 			return g.deepDoc()
+		case 2:
+			return g.twinDoc()
 		}
 	}
 	n := 2 + g.R.Intn(max-1)
@@ -124,6 +126,33 @@ func (g *G) wideDoc() *vdoc.Doc {
 		default:
 			nodes = append(nodes, vdoc.Node{K: "comment", P: 2, V: "k"})
 			last = "comment"
+		}
+	}
+	d, err := vdoc.New(nodes)
+	if err != nil {
+		panic(err)
+	}
+	return d
+}
+
+// twinDoc: two or three IDENTICAL branches three or four levels deep under one element: nodes of different branches
+// share depth, names and every sibling position below the top.
+func (g *G) twinDoc() *vdoc.Doc {
+	depth := 3 + g.R.Intn(2)
+	names := make([]string, depth)
+	for i := range names {
+		names[i] = g.pick(g.Elems)
+	}
+	leafText := g.R.Intn(2) == 0
+	nodes := []vdoc.Node{{K: "root"}, {K: "elem", N: g.pick(g.Elems), P: 1}}
+	for b := 2 + g.R.Intn(2); b > 0; b-- {
+		p := 2
+		for i := 0; i < depth; i++ {
+			nodes = append(nodes, vdoc.Node{K: "elem", N: names[i], P: p})
+			p = len(nodes)
+		}
+		if leafText {
+			nodes = append(nodes, vdoc.Node{K: "text", P: p, V: g.pick(g.Texts)})
 		}
 	}
 	d, err := vdoc.New(nodes)
